@@ -322,6 +322,7 @@ class System:
             S['cancel.%d' % i] = F
             S['bf.%d' % i] = z3.BitVecVal(0, 3)
             S['proc.%d' % i] = F
+            S['hang.%d' % i] = z3.Bool('hang_%d' % i)     # environment: this target's script never exits by itself
             for n, c in am.co.inst.slots:
                 S[n] = F if z3.is_bool(c) else z3.BitVecVal(0, c.size())
             self.q[i].init(S)
@@ -367,6 +368,7 @@ class System:
             if kind == 'launch':
                 i = int(data['target'][1:])
                 S = self._launch(S, i)
+                obs.add('launch', i, g)
             elif kind == 'send':
                 chan = data['chan']
                 if chan.startswith('inbox:'):
@@ -402,7 +404,7 @@ class System:
             who = m.payload['target_id'].fields['target_name']
         return (m.variant, kind, who)
 
-    def _launch(self, S, i):
+    def _launch(self, S, i, obs=None, g=None):
         S = dict(S)
         S['launched.%d' % i] = T
         S['alive.%d' % i] = T
@@ -596,7 +598,7 @@ class System:
                             en = z3.And(live, active, S['bf.%d' % i] == ni + 1, S['cancel.%d' % i])
                             S1['cancel.%d' % i] = F
                         else:
-                            en = z3.And(live, active, S['bf.%d' % i] == ni + 1, S['proc.%d' % i])
+                            en = z3.And(live, active, S['bf.%d' % i] == ni + 1, S['proc.%d' % i], z3.Not(S['hang.%d' % i]))
                             S1['proc.%d' % i] = F
                             obs.add('proc_exit', i, T)
                         S2 = self._bf_step(S1, i, k, (ni, key), obs)
